@@ -264,3 +264,10 @@ package vm
 //@   ensures[C07] @protected !old(evm.vmConfig.NoRecursion && evm.depth > 0) && old(evm.depth) <= 1024 ==> ro_at_run
 //@   ensures[C07] @restored evm.interpreter.readOnly == old(evm.interpreter.readOnly)
 //@   ensures[C07] @gas leftOverGas <= gas
+
+// ---- call-data / code window (C08: CALLDATALOAD, CALLDATACOPY, CODECOPY, EXTCODECOPY) ---------------
+// Reads at or beyond the end of the data are zero for the full 256-bit start offset (Yellow Paper:
+// out-of-range call data and code read as zero), in particular for offsets that do not fit 64 bits.
+//@ func getDataBig
+//@   requires start != nil && size != nil && big(start) >= 0 && big(size) >= 0 && big(size) < 1099511627776
+//@   ensures[C08] @beyond old(big(start)) >= U(uint64(len(data))) ==> (forall k int :: 0 <= k && k < len(result) ==> result[k] == 0)
